@@ -22,6 +22,8 @@ Outside an exploration ``point()`` is a no-op: the same statements run serially 
 Menu       bal2 (``balance`` twice per row, vy between), agg (two aggregates, GROUP BY), insub (IN
            sub-query with a named placeholder inside), fromsub (FROM sub-query), named / pos1 / pos2
            (placeholders), ent (the #entries table), oc (FROM OPEN ON .. CLOSE ON ..), ht (harness table).
+           oc1..oc4 (FROM OPEN/CLOSE/CLEAR with different windows, compile point after FROM) and b*/j* (BALANCES /
+           JOURNAL pairs with a compile point inside FROM) are explored as pairs only.
            tagg / tagg2 / tplain are passed AS TEXT (same text in both threads), as pairs only.
            The parsed AST of a statement is SHARED by all threads that execute it; each thread passes its own parameters.
 Configs    shared: one Connection for all threads; separate: one Connection per thread over the same
@@ -228,6 +230,35 @@ PARSE_MENU = {
 PARSE_PAIRS = [('pa', 'pa'), ('pa', 'pb'), ('pb', 'pb'), ('pa', 'pc')]
 TEXT_MENU.update(PARSE_MENU)
 MENU.update(TEXT_MENU)
+# FROM-qualified statements with DIFFERENT windows (fed as ASTs).  The compiler applies OPEN / CLOSE / CLEAR when the
+# FROM clause is compiled, the table reads them when iteration starts: vc(1) in WHERE is a compile-time point AFTER the
+# FROM clause; oc4 has row-level points before a lazily executed IN (SELECT ... FROM CLOSE ON ...).
+FROM_MENU = {
+    'oc1': ("SELECT account, sum(position) AS s FROM OPEN ON 2020-01-03 CLOSE ON 2020-01-05 "
+            "WHERE vc(1) = 1 AND account ~ 'Assets' AND vy(1) = 1 GROUP BY account", None, ()),
+    'oc2': ("SELECT account, number FROM CLOSE ON 2020-01-04 CLEAR WHERE vc(1) = 1 AND account ~ 'Assets|Equity'", None, ()),
+    'oc3': ("BALANCES FROM OPEN ON 2020-01-04 WHERE vc(1) = 1 AND account ~ 'Assets|Equity'", None, ()),
+    'oc4': ("SELECT vy(1) AS y, account, account IN (SELECT account FROM CLOSE ON 2020-01-03 WHERE number > 0) AS m "
+            "WHERE account ~ 'Assets'", None, ()),
+}
+FROM_PAIRS = [(cfg, p) for cfg in ('shared',) for p in itertools.combinations(FROM_MENU, 2)] + \
+             [('separate', ('oc1', 'oc2')), ('separate', ('oc2', 'oc4'))]
+# BALANCES / JOURNAL are translated to a SELECT built from a template that is re-parsed by every compilation (40-150 ms:
+# few pairs).  `FROM vc(1) = 1` is constant-folded while the FROM clause is compiled: a point between the compilation
+# of the FROM clause and of the WHERE clause / account pattern of the translated statement.
+TEMPLATE_MENU = {
+    'b1': ("BALANCES FROM vc(1) = 1 WHERE account ~ 'Assets'", None, ()),
+    'b2': ("BALANCES FROM vc(1) = 1 WHERE account ~ 'Income'", None, ()),
+    'bc1': ("BALANCES AT cost FROM vc(1) = 1 WHERE account ~ 'Assets:A'", None, ()),
+    'bc2': ("BALANCES AT cost FROM vc(1) = 1 WHERE account ~ 'Assets:B'", None, ()),
+    'j1': ("JOURNAL 'Assets:A' FROM vc(1) = 1", None, ('balance',)),
+    'j2': ("JOURNAL 'Assets:B' FROM vc(1) = 1", None, ('balance',)),
+    'ju1': ("JOURNAL 'Assets' AT units FROM vc(1) = 1", None, ('units(balance)',)),
+    'ju2': ("JOURNAL 'Income' AT units FROM vc(1) = 1", None, ('units(balance)',)),
+}
+TEMPLATE_PAIRS = [(cfg, p) for cfg in ('shared', 'different') for p in (('b1', 'b2'), ('bc1', 'bc2'), ('j1', 'j2'), ('ju1', 'ju2'))]
+MENU.update(FROM_MENU)
+MENU.update(TEMPLATE_MENU)
 TEXT_PAIRS = [('tagg', 'tagg'), ('tagg', 'tagg2'), ('tagg', 'tplain'), ('tplain', 'tplain')]
 CANARY = ('canary', 'canary')
 MENU['canary'] = ("SELECT c FROM #canary", None, ())      # not part of IDS: explored separately, see run()
@@ -598,6 +629,9 @@ def plan(ctx):
     for config in ('shared', 'separate'):
         for ids in TEXT_PAIRS + PARSE_PAIRS:
             add('yield', config, ids, None, sched.interleavings(*[pts[s] + 1 for s in ids]), 20)
+    pts.update({sid: count_points('yield', sid, seed) for sid in list(FROM_MENU) + list(TEMPLATE_MENU)})
+    for config, ids in TEMPLATE_PAIRS + FROM_PAIRS:
+        add('yield', config, ids, None, sched.interleavings(*[pts[s] + 1 for s in ids]), 20)
     for config in CONFIGS:
         for ids in pairs:
             add('yield', config, ids, None, sched.interleavings(*[pts[s] + 1 for s in ids]), 600)
@@ -803,8 +837,9 @@ def _run(ctx):
         'exhaustive': exhaustive,
         'bound': ('2 threads: ALL interleavings of the vy()/table-row points for all %d statement pairs x 3 configurations; '
                   '3 threads: all schedules with <= 2 preemptions for %d triples (shared and different configurations; the quick '
-                  'subset in the separate configuration); text statements: all interleavings of %s incl. parse points'
-                  % (len(total.sets['items|yield|shared|2']), len(total.sets['items|yield|shared|3']), TEXT_PAIRS + PARSE_PAIRS))
+                  'subset in the separate configuration); text statements: all interleavings of %s incl. parse points; FROM-qualified and BALANCES/JOURNAL pairs: %s'
+                  % (len(total.sets['items|yield|shared|2']), len(total.sets['items|yield|shared|3']), TEXT_PAIRS + PARSE_PAIRS,
+                     [f'{c}:{"+".join(i)}' for c, i in FROM_PAIRS + TEMPLATE_PAIRS]))
                  + ('; line granularity (sys.settrace, a point before every line of beanquery/*.py): all schedules with <= 1 '
                     'preemption for all pairs in the shared and different configurations; <= 2 preemptions with line points restricted to the modules '
                     'holding the shared state for %s (at most %d executions per sub-shard)'
